@@ -2362,13 +2362,19 @@ impl RaftNode {
             if log_ok {
                 success = self.append_leader_entries(&ae.entries, &mut persistent);
 
-                match_index = persistent.array_len_as_log_index();
+                // Only the prefix covered by this request is known to match the
+                // leader's log; a stale suffix beyond it must not be acknowledged
+                // or committed.
+                let last_new_index = (ae.prev_log_index + ae.entries.len() as u64)
+                    .min(persistent.array_len_as_log_index());
+                match_index = last_new_index;
 
                 // Update commit index
                 let mut volatile = self.volatile.write();
                 if ae.leader_commit > volatile.commit_index {
-                    volatile.commit_index =
-                        ae.leader_commit.min(persistent.array_len_as_log_index());
+                    volatile.commit_index = volatile
+                        .commit_index
+                        .max(ae.leader_commit.min(last_new_index));
                 }
             }
         }
